@@ -147,7 +147,7 @@ DummyCfg == [net |-> "regtest", thr |-> 1, api |-> TRUE, syncing |-> TRUE, gate 
              fees |-> [ub |-> 0, ur |-> 0, um |-> 0, bal |-> 0, balm |-> 0, pct |-> 0, pctm |-> 0,
                        hb |-> 0, hr |-> 0, hm |-> 0, sb |-> 0, sp |-> 0]]
 
-NoQ == [addr |-> -1, mc |-> -1, res |-> "none"]
+NoQ == [addr |-> -1, mc |-> -1, res |-> <<"none", 0>>]
 
 TraceInit ==
   /\ l = 1 /\ bad = TRUE /\ nad = 0 /\ lastq = NoQ /\ upg = FALSE
@@ -386,7 +386,8 @@ BalanceChecks(m) ==
 \* C05 as a direct relation between two answers of the code (same address, same filter, same state)
 RelationChecks ==
   IF R.ep = "balance" /\ R.ac = "ok" /\ lastq.addr = R.addr /\ lastq.mc = McOf /\ R.ans.k # "trap"
-  THEN << <<"relation.balance_vs_utxos." \o McTag, lastq.res, IF R.ans.k = "ok" THEN R.ans.v ELSE R.ans.err>> >>
+  \* (tagged pairs: a sum is never compared with an error name, which TLC would refuse to evaluate)
+  THEN << <<"relation.balance_vs_utxos." \o McTag, lastq.res, IF R.ans.k = "ok" THEN <<"ok", R.ans.v>> ELSE <<"err", R.ans.err>>>> >>
   ELSE <<>>
 
 HeadersChecks(m) ==
@@ -432,7 +433,7 @@ TraceQuery ==
   /\ Live("q") /\ R.ep \in {"utxos", "balance", "headers", "info", "config"}
   /\ UNCHANGED <<vars, bad, nad, upg>>
   /\ lastq' = IF R.ep = "utxos" /\ R.ac = "ok" /\ R.ans.k # "trap"
-              THEN [addr |-> R.addr, mc |-> McOf, res |-> IF R.ans.k = "ok" THEN SumSeq([i \in 1..Len(R.ans.utxos) |-> R.ans.utxos[i][3]]) ELSE R.ans.err]
+              THEN [addr |-> R.addr, mc |-> McOf, res |-> IF R.ans.k = "ok" THEN <<"ok", SumSeq([i \in 1..Len(R.ans.utxos) |-> R.ans.utxos[i][3]])>> ELSE <<"err", R.ans.err>>]
               ELSE IF R.ep = "balance" THEN NoQ ELSE lastq
   /\ LET m == St
          checks == CASE R.ep = "utxos"   -> Gated(m, "get_utxos", UtxosChecks(m))
